@@ -222,6 +222,7 @@ class BaseCollection:
             included_tzids: Set[str] = set()
             vtimezone = []
             tzid = None
+            tzid_line = False
             components = ""
             # Concatenate all child elements of VCALENDAR from all items
             # together, while preventing duplicated VTIMEZONE entries.
@@ -244,6 +245,11 @@ class BaseCollection:
                             vtimezone.append(line + "\r\n")
                             if depth == 2 and line.startswith("TZID:"):
                                 tzid = line[len("TZID:"):]
+                                tzid_line = True
+                            elif tzid_line and line[:1] in (" ", "\t"):
+                                # Continuation of a folded TZID line
+                                assert tzid is not None
+                                tzid += line[1:]
                             elif depth == 2 and line.startswith("END:"):
                                 if tzid is None or tzid not in included_tzids:
                                     vtimezones += "".join(vtimezone)
@@ -251,6 +257,9 @@ class BaseCollection:
                                     included_tzids.add(tzid)
                                 vtimezone.clear()
                                 tzid = None
+                                tzid_line = False
+                            else:
+                                tzid_line = False
                         elif depth >= 2:
                             components += line + "\r\n"
                     if line.startswith("END:"):
